@@ -969,7 +969,10 @@ def gen_cases(ctx):
             if len(d["subs"]) >= 2:
                 break
         cases.append(d)
-    for _ in range(ctx.scale(60, 650)):
+    for i_ in range(ctx.scale(60, 650)):
+        if i_ % 4 == 0:
+            cases.append(c04.gen_per_single_point(ctx, rng))       # fixed share of the single-point corner
+            continue
         p = c04.gen_per(ctx, rng)
         p["calls"] = 2
         if p["bspace"] and rng.random() < 0.3:
@@ -1092,7 +1095,7 @@ def run(ctx, rep, cases=None, _intensify=True):
     fs_replies = common.run_driver("C14", ["fs " + lst([keytok(c, k) for k, j_ in r.get("ran_steps", []) if j_ != "D"]) for c, (r, _) in zip(dons, dres)])
     for c, (r, _), m in zip(dons, dres, fs_replies):
         got = " ".join(str(st["batch"]) for st in r["steps"] if st["j"] != "D")
-        if not r["errors"] and got != m.strip():
+        if c.get("fsmode", "one") == "one" and not r["errors"] and got != m.strip():
             rep.disagree("function-set batches: drivers/C14.lean `fs` vs the draws of the shared function set", c, got, m)
     for i, (c, (r, al)) in enumerate(zip(dons, dres)):
         rp = [per_case.get(("don", i), {}).get(j) for j in range(len(c["steps"]))]
